@@ -410,3 +410,50 @@ def gen_sweep(seed, wl, cfg=None):
     used_params = {param: params[param]} if param else {}
     return {'seed': seed, 'mode': mode, 'inputs': used, 'params': used_params,
             'steps': steps, 'arm': 'sweep', 'faults_on': True}
+
+
+def gen_repeat(seed, wl, cfg=None):
+    """Repetition history: one to three (input, options) pairs called 30-60
+    times in one process.  Targets leaks that depend on a count: budgets,
+    size-bounded caches that start evicting, counters that wrap, toggles."""
+    cfg = cfg or {}
+    rng = random.Random(seed)
+    inputs = wl['inputs']
+    params = {p['id']: p['text'] for p in wl['params']}
+    pool = [i for i in inputs if i['natoms'] <= 200 or i['family'] in NONCOV_FAMILIES + BIG_OK]
+    fams = {}
+    for i in pool:
+        fams.setdefault(i['family'], []).append(i)
+    special = [f for f in NONCOV_FAMILIES + BIG_OK if f in fams]
+    hot = [f for f in HOT_FAMILIES if f in fams]
+    u = rng.random()
+    if special and u < 0.5:
+        fam = rng.choice(special)
+    elif hot and u < 0.8:
+        fam = rng.choice(hot)
+    else:
+        fam = rng.choice(sorted(fams))
+    pairs = []
+    for n in range(rng.randint(1, 3)):
+        inp = rng.choice(fams[fam]) if n else fams[fam][0]
+        en = set(k for k in OPTION_KINDS if rng.random() < 0.3)
+        opts, param, optsig = gen_options(rng, en, inp, params)
+        if ['-d'] not in opts and rng.random() < 0.7:
+            opts = opts + [['-d']]
+            optsig += '+display'
+        pairs.append((inp, opts, param, optsig))
+    mode = {'addr': 'sim', 'layout': gen_layout(rng), 'rollover': False,
+            'clock_start': 730000 + rng.randrange(15000),
+            'filelayer': True, 'clock': True, 'probe': True}
+    steps = []
+    used = {}
+    used_params = {}
+    for _ in range(rng.randint(30, 60)):
+        inp, opts, param, optsig = rng.choice(pairs)
+        call = gen_call(rng, {'single_path', 'single_stream', 'pipeline'}, inp, opts, param, [inp], False)
+        used[inp['id']] = {'text': inp['text'], 'stem': inp['stem']}
+        if param:
+            used_params[param] = params[param]
+        steps.append({'perturb': [], 'call': call, 'optsig': optsig, 'family': fam})
+    return {'seed': seed, 'mode': mode, 'inputs': used, 'params': used_params,
+            'steps': steps, 'arm': 'repeat', 'faults_on': False}
